@@ -2,6 +2,7 @@ package yyflow
 
 import (
 	"fmt"
+	"go/types"
 	"sort"
 	"strings"
 
@@ -388,4 +389,136 @@ func (l *Lang) ReportPositions(shapes map[string]*Shape) *report.RuleResult {
 		}
 	}
 	return res
+}
+
+// SlotKinds computes, from every action of the grammar, which node kinds can
+// be stored in which field of which struct ("T.F" → kinds), by a flow fixpoint
+// over nonterminals and fields (elements of lists count for the list field).
+// Fields of the parser-private carrier types are kept apart per nonterminal
+// ("T.F@nt"), because one carrier type serves many unrelated lists.
+func (l *Lang) SlotKinds() map[string]map[string]bool {
+	edges := map[string]map[string]bool{} // to → from
+	kinds := map[string]map[string]bool{}
+	addEdge := func(to, from string) {
+		if edges[to] == nil {
+			edges[to] = map[string]bool{}
+		}
+		edges[to][from] = true
+	}
+	addKind := func(to, k string) {
+		if kinds[to] == nil {
+			kinds[to] = map[string]bool{}
+		}
+		kinds[to][k] = true
+	}
+	slotKey := func(t, f, nt string) string {
+		if isCarrier(t) {
+			return "slot:" + t + "." + f + "@" + nt
+		}
+		return "slot:" + t + "." + f
+	}
+	// carrier struct types of the parser package and their fields
+	carrierFields := map[string][]string{}
+	sc := l.Pkg.Types.Scope()
+	for _, name := range sc.Names() {
+		tn, ok := sc.Lookup(name).(*types.TypeName)
+		if !ok || strings.HasPrefix(name, "yy") || name == "Parser" {
+			continue
+		}
+		if st, ok := tn.Type().Underlying().(*types.Struct); ok {
+			for i := 0; i < st.NumFields(); i++ {
+				carrierFields[name] = append(carrierFields[name], st.Field(i).Name())
+			}
+		}
+	}
+	for n := 1; n < len(l.Actions); n++ {
+		a := l.Actions[n]
+		symName := func(i int) string {
+			if i >= 1 && i <= len(a.Prod.RHS) {
+				return a.Prod.RHS[i-1]
+			}
+			return "?"
+		}
+		var flow func(v Val, to string)
+		flow = func(v Val, to string) {
+			switch x := v.(type) {
+			case Sym:
+				addEdge(to, "nt:"+symName(x.I))
+			case Part:
+				if x.F == "Position" || x.F == "Value" || x.T == "" {
+					return
+				}
+				ctx := ""
+				if sy, ok := x.Base.(Sym); ok {
+					ctx = symName(sy.I)
+				}
+				addEdge(to, slotKey(x.T, x.F, ctx))
+			case ListV:
+				for _, sg := range x.Segs {
+					flow(sg, to)
+				}
+			case Elem:
+				flow(x.V, to)
+			case Idx:
+				flow(x.Base, to)
+			case Slc:
+				flow(x.Base, to)
+			case Fold:
+				flow(x.Acc, to)
+				flow(x.List, to)
+			case *Obj:
+				addKind(to, x.TName)
+				for f, fv := range x.Fields {
+					if f != "Position" && f != "Value" {
+						flow(fv, slotKey(x.TName, f, a.Prod.LHS))
+					}
+				}
+			}
+		}
+		for _, p := range a.Paths {
+			if p.Result != nil {
+				flow(p.Result, "nt:"+a.Prod.LHS)
+				if sy, ok := p.Result.(Sym); ok {
+					for t, fs := range carrierFields {
+						for _, f := range fs {
+							addEdge(slotKey(t, f, a.Prod.LHS), slotKey(t, f, symName(sy.I)))
+						}
+					}
+				}
+			}
+			for _, u := range p.St.Updates {
+				if u.F == "Position" || u.F == "Value" || u.T == "" {
+					continue
+				}
+				ctx := ""
+				if sy, ok := u.Base.(Sym); ok {
+					ctx = symName(sy.I)
+				}
+				flow(u.Val, slotKey(u.T, u.F, ctx))
+			}
+		}
+	}
+	for changed := true; changed; {
+		changed = false
+		for to, froms := range edges {
+			for from := range froms {
+				for k := range kinds[from] {
+					if kinds[to] == nil {
+						kinds[to] = map[string]bool{}
+					}
+					if !kinds[to][k] {
+						kinds[to][k] = true
+						changed = true
+					}
+				}
+			}
+		}
+	}
+	out := map[string]map[string]bool{}
+	for k, v := range kinds {
+		if strings.HasPrefix(k, "slot:") {
+			out[strings.TrimPrefix(k, "slot:")] = v
+		}
+	}
+	return out
 }
